@@ -329,6 +329,9 @@ func genC03(t *rapid.T) TargetCase {
 	} else {
 		b = gen.Edit(t, a, p)
 	}
+	if gen.Chance(t, "deep", 15) {
+		a, b = gen.DeepPair(t, a, b, p)
+	}
 	c := TargetCase{A: val.JSON(a), B: val.JSON(b), Opts: "list"}
 	d, _, panicked := jdx.DiffSafe(jdx.Node(a), jdx.Node(b), nil)
 	var hs []ref.Hunk
